@@ -158,6 +158,13 @@ def run(chk, replay_rec):
         for sink in ("dxf", "svg"):
             for gmp in (0, 1):
                 vecs.append(dict(sink=sink, np=1, steps=s["steps"], free=True, gmp=gmp))
+    # the same with a Close() after every write (several parts drawn into one output, each ending with Close)
+    for s in s1:
+        for sink in ("mem", "stl"):
+            vecs.append(dict(sink=sink, np=1, steps=s["steps"], free=True, gmp=0, parts=True))
+    for s in l1:
+        for sink in ("dxf", "svg"):
+            vecs.append(dict(sink=sink, np=1, steps=s["steps"], free=True, gmp=0, parts=True))
     obs = replay(chk, vecs)
     chk.traces += len(obs)
     if len(obs) != len(vecs):
@@ -198,7 +205,7 @@ def run(chk, replay_rec):
                 raise vlib.Inconclusive("rejected run did not reproduce: " + key_of(o, why))
             chk.violation(key_of(o, again[k]), "real pipeline run rejected: %s; written=%d delivered runs=%s count=%d" % (
                 again[k], o["written"], o["delivered"][:6], o["count"]),
-                dict(vector={x: o["vec"][x] for x in ("sink", "np", "steps", "async", "free", "gmp") if x in o["vec"]}, why=again[k]))
+                dict(vector={x: o["vec"][x] for x in ("sink", "np", "steps", "async", "free", "gmp", "parts") if x in o["vec"]}, why=again[k]))
         if not chk.violations and any("racing-writes failure" in n for n in chk.notes):
             raise vlib.Inconclusive(chk.notes[-1])
     if unreal > len(obs) // 50:
